@@ -37,31 +37,42 @@ def small_pairs(inst):
     z0 = z_of(inst)
     if z0 is None:
         return pairs
+    for kind, what, j in perturbations(inst):
+        pairs.append(dict(kind=kind, what=what, z0=z0, z1=z_of(j)))
+    return pairs
+
+
+def perturbations(inst):
+    """(kind, what, perturbed instance): the family both the real Optimizer (here) and Optimum.tla (MC_OptimumLaws) are asked about"""
+    out = []
     n = inst["n"]
     for key in ("crops", "meat", "scp"):
         for m in range(n):
             j = copy.deepcopy(inst)
             j[key][m] += 6
-            pairs.append(dict(kind="more_supply", what="%s[%d]+6" % (key, m), z0=z0, z1=z_of(j)))
+            out.append(("more_supply", "%s[%d]+6" % (key, m), j))
     j = copy.deepcopy(inst)
     j["sf"] += 6
-    pairs.append(dict(kind="more_supply", what="stored_food+6", z0=z0, z1=z_of(j)))
+    out.append(("more_supply", "stored_food+6", j))
     if inst["waste"] > 0:
         j = copy.deepcopy(inst)
         j["waste"] = inst["waste"] - 10
-        pairs.append(dict(kind="less_waste", what="waste-10", z0=z0, z1=z_of(j)))
+        out.append(("less_waste", "waste-10", j))
+        j = copy.deepcopy(inst)
+        j["waste"] = 0
+        out.append(("less_waste", "waste-50", j))
     for m in range(n):
         j = copy.deepcopy(inst)
         j["feed"][m] += 3
-        pairs.append(dict(kind="more_charge", what="feed[%d]+3" % m, z0=z0, z1=z_of(j)))
+        out.append(("more_charge", "feed[%d]+3" % m, j))
     for k in (2.0, 0.5):
         j = copy.deepcopy(inst)
         j["need"] = inst["need"] * k
         j["sf"] = inst["sf"] * k
         for key in ("crops", "meat", "scp", "feed"):
             j[key] = [x * k for x in inst[key]]
-        pairs.append(dict(kind="scale", what="x%g" % k, z0=z0, z1=z_of(j)))
-    return pairs
+        out.append(("scale", "x%g" % k, j))
+    return out
 
 
 def real_inputs(job):
